@@ -15,16 +15,22 @@ import (
 var OnlyPick = -1
 
 type gen struct {
-	r      *hx.Rng
-	n      int // fresh name counter
-	b      strings.Builder
-	loops  []string // enclosing loop labels ("" = unlabelled)
-	inFunc bool
-	inGen  bool
-	inFin  int
+	r        *hx.Rng
+	n        int // fresh name counter
+	b        strings.Builder
+	loops    []string // enclosing loop labels ("" = unlabelled)
+	inFunc   bool
+	inGen    bool
+	inFin    int
 	closSeen bool // a closure literal precedes: the checker then mis-types return/yield (DESIGN 6 #10, C12)
-	noLoop bool // macro bodies run at compile time: keep them loop-free
-	tags   map[string]bool
+	noLoop   bool // macro bodies run at compile time: keep them loop-free
+	tags     map[string]bool
+
+	// second generation (calls between methods, wide operands)
+	callables []string // call formats with one %s (an Int argument), each evaluates to an Int; earlier, current and LATER items
+	selfCall  string   // call format of the method whose body is being generated ("" outside methods)
+	wide      bool     // wide profile: pads / wide frames / big literals
+	wideLoc   int      // > 0: this many extra locals are declared BEFORE a, b, c (slots of a, b, c need 16 bits)
 }
 
 func (g *gen) fresh(p string) string { g.n++; return fmt.Sprintf("%s%d", p, g.n) }
@@ -34,7 +40,7 @@ func (g *gen) w(ind int, s string) {
 	g.b.WriteString(s)
 	g.b.WriteByte('\n')
 }
-func (g *gen) k() int { return g.r.Range(1, 9) }
+func (g *gen) k() int    { return g.r.Range(1, 9) }
 func (g *gen) v() string { return hx.Pick(g.r, []string{"a", "b", "c"}) }
 func (g *gen) expr() string {
 	switch g.r.Below(8) {
@@ -81,7 +87,7 @@ func (g *gen) stmt(ind, depth int) {
 		return
 	}
 	d := depth - 1
-	pick := g.r.Below(30)
+	pick := g.r.Below(36)
 	if OnlyPick >= 0 && g.r.Chance(2, 3) {
 		pick = OnlyPick
 	}
@@ -298,9 +304,147 @@ func (g *gen) stmt(ind, depth int) {
 		g.w(ind, fmt.Sprintf("%s = %s.length", g.v(), t))
 		g.w(ind, fmt.Sprintf("%s += 1 if %%/a+b/.matches(\"aab\")", g.v()))
 		g.w(ind, fmt.Sprintf("%s += 1 if (1...%d).contains(%s)", g.v(), g.k(), g.v()))
+	case 28, 29:
+		// call of another method of the program (defined earlier, the current one, or LATER:
+		// static binding is then deferred to optimiseCalls), value used
+		if c := g.call(); c != "" {
+			g.tag("call")
+			g.w(ind, fmt.Sprintf("%s = %s", g.v(), fmt.Sprintf(c, g.expr())))
+		} else {
+			g.w(ind, fmt.Sprintf("%s += %s", g.v(), g.expr()))
+		}
+	case 30, 31:
+		// call in tail position of a guarded return
+		if c := g.call(); c != "" && g.inFunc && g.inFin == 0 && !g.closSeen {
+			g.tag("tail-call")
+			g.w(ind, fmt.Sprintf("return %s if %s", fmt.Sprintf(c, g.expr()), g.cond()))
+		} else if c != "" {
+			g.tag("call")
+			g.w(ind, fmt.Sprintf("%s = 1 + %s", g.v(), fmt.Sprintf(c, g.v())))
+		} else {
+			g.w(ind, fmt.Sprintf("%s -= %s", g.v(), g.expr()))
+		}
+	case 32:
+		// dynamic dispatch on a union receiver, call whose value is ignored, short-circuit with a call
+		g.tag("call-dynamic")
+		u, t := g.fresh("u"), g.fresh("t")
+		g.w(ind, fmt.Sprintf("var %s: Int | Float = %s", u, g.v()))
+		g.w(ind, fmt.Sprintf("%s = 2.5 if %s", u, g.cond()))
+		g.w(ind, fmt.Sprintf("%s := %s.to_string", t, u))
+		g.w(ind, fmt.Sprintf("%s = %s.length", g.v(), t))
+	case 33:
+		g.tag("logical-call-statement")
+		if c := g.call(); c != "" {
+			g.w(ind, fmt.Sprintf("%s && %s > 0", g.cond(), fmt.Sprintf(c, g.v())))
+			g.w(ind, fmt.Sprintf("%s || %s > 1", g.cond(), fmt.Sprintf(c, g.v())))
+			g.w(ind, fmt.Sprintf(c, g.expr()))
+		} else {
+			g.w(ind, fmt.Sprintf("%s && %s.to_string.length > 0", g.cond(), g.v()))
+		}
+	case 34:
+		if g.wide {
+			g.bigLiteral(ind)
+		} else {
+			g.w(ind, fmt.Sprintf("%s = %s", g.v(), g.expr()))
+		}
 	default:
 		g.w(ind, fmt.Sprintf("%s += %s", g.v(), g.expr()))
 	}
+}
+
+// call returns the format of a call to some method of the program ("" if there is none).
+func (g *gen) call() string {
+	if g.noLoop {
+		return "" // macro bodies run at compile time
+	}
+	if g.selfCall != "" && g.r.Chance(1, 3) {
+		g.tag("self-recursion")
+		return g.selfCall
+	}
+	if len(g.callables) == 0 {
+		return g.selfCall
+	}
+	return hx.Pick(g.r, g.callables)
+}
+
+// wideCounts: operand values around the 8/16 bit boundary (and one with a non-zero high byte > 1)
+func (g *gen) wideCount() int {
+	switch g.r.Below(8) {
+	case 0:
+		return g.r.Range(300, 330)
+	case 1:
+		return g.r.Range(515, 530)
+	default:
+		return g.r.Range(244, 262)
+	}
+}
+
+// pad emits n statements each of which adds (at least) one entry to the value pool of the
+// current function, so that whatever follows refers to pool indices >= 256 (LOAD_VALUE16,
+// GET_CONST16, CALL_METHOD*16, CALL16, NEXT16 ...).  Needs the locals of locals().
+func (g *gen) pad(ind, n int) {
+	g.tag("pad")
+	kind := g.r.Below(5)
+	for i := 0; i < n; i++ {
+		k := kind
+		if kind == 4 {
+			k = i % 4
+		}
+		c := ""
+		if k == 2 {
+			c = g.call()
+		}
+		switch {
+		case k == 0:
+			g.w(ind, fmt.Sprintf("pd = \"k%d\"", i))
+		case k == 1:
+			g.w(ind, fmt.Sprintf("pf = %d.5", i))
+		case k == 2 && c != "":
+			g.w(ind, fmt.Sprintf("a = %s", fmt.Sprintf(c, "a")))
+		default:
+			g.w(ind, "pd = a.to_string") // a native call site per statement
+		}
+	}
+}
+
+// bigLiteral: collection / string literals with more than 255 dynamic elements (NEW_*16)
+func (g *gen) bigLiteral(ind int) {
+	n := g.wideCount()
+	el := make([]string, n)
+	x := g.fresh("big")
+	switch g.r.Below(5) {
+	case 0:
+		g.tag("big-list")
+		for i := range el {
+			el[i] = g.v()
+		}
+		g.w(ind, fmt.Sprintf("%s := [%s]", x, strings.Join(el, ", ")))
+	case 1:
+		g.tag("big-tuple")
+		for i := range el {
+			el[i] = g.v()
+		}
+		g.w(ind, fmt.Sprintf("%s := %%[%s]", x, strings.Join(el, ", ")))
+	case 2:
+		g.tag("big-map")
+		for i := range el {
+			el[i] = fmt.Sprintf("%d => %s", i, g.v())
+		}
+		g.w(ind, fmt.Sprintf("%s := { %s }", x, strings.Join(el, ", ")))
+	case 3:
+		g.tag("big-set")
+		for i := range el {
+			el[i] = fmt.Sprintf("%s + %d", g.v(), i)
+		}
+		g.w(ind, fmt.Sprintf("%s := ^[%s]", x, strings.Join(el, ", ")))
+	default:
+		g.tag("big-string")
+		for i := range el {
+			el[i] = fmt.Sprintf("#{%s}", g.v())
+		}
+		g.w(ind, fmt.Sprintf("%s := \"%s\"", x, strings.Join(el, "-")))
+	}
+	g.w(ind, fmt.Sprintf("%s = %s.length", g.v(), x))
 }
 
 func (g *gen) loop(ind, depth int, head string) {
@@ -323,38 +467,183 @@ func (g *gen) loop(ind, depth int, head string) {
 }
 
 func (g *gen) locals(ind int) {
+	for i := 0; i < g.wideLoc; i++ {
+		g.w(ind, fmt.Sprintf("var w%d = %d", i, i))
+	}
+	if g.wide {
+		g.w(ind, "var pd = \"\"")
+		g.w(ind, "var pf = 0.5")
+	}
 	g.w(ind, fmt.Sprintf("var a = %d", g.r.Range(0, 5)))
 	g.w(ind, fmt.Sprintf("var b = %d", g.r.Range(0, 5)))
 	g.w(ind, fmt.Sprintf("var c = %d", g.r.Range(0, 5)))
 }
 
 // Program returns (source, comma separated construct tags).
-func Program(r *hx.Rng) (string, string) {
-	g := &gen{r: r, tags: map[string]bool{}}
+func Program(r *hx.Rng) (string, string) { return program(r, false) }
+
+// WideRandomProgram: the same generator in the wide profile: bodies are preceded by 244..530
+// pool-filling statements and/or declare that many extra locals first, so that the constructs
+// that follow are encoded with the 16-bit opcode variants; literals with > 255 elements.
+func WideRandomProgram(r *hx.Rng) (string, string) { return program(r, true) }
+
+type item struct {
+	kind int
+	name string
+}
+
+func program(r *hx.Rng, wide bool) (string, string) {
+	g := &gen{r: r, tags: map[string]bool{}, wide: wide}
 	depth := r.Range(2, 4)
+	if wide {
+		depth = r.Range(1, 3)
+		g.tag("wide")
+	}
 	var calls []string
 	nItems := r.Range(1, 4)
+	// plan first: bodies may call methods that are defined LATER in the file
+	var items []item
 	for it := 0; it < nItems; it++ {
-		g.closSeen = false
-		switch r.Below(7) {
+		k := r.Below(7)
+		switch k {
 		case 0, 1:
-			g.tag("method")
 			m := g.fresh("m")
+			items = append(items, item{0, m})
+			g.callables = append(g.callables, m+"(%s)", m+"(%s, 7)")
+		case 2:
+			items = append(items, item{2, g.fresh("g")})
+		case 3:
+			m := g.fresh("am")
+			items = append(items, item{3, m})
+			g.callables = append(g.callables, "(await "+m+"(%s))")
+		case 4:
+			cn := g.fresh("Kls")
+			items = append(items, item{4, cn})
+			g.callables = append(g.callables, cn+"(1, 2).run(%s)")
+		case 5:
+			items = append(items, item{5, g.fresh("mc")})
+		default:
+			mn := g.fresh("Mod")
+			items = append(items, item{6, mn})
+			g.callables = append(g.callables, mn+".calc(%s)")
+		}
+	}
+	// prologue of a body: locals (possibly > 255 of them), then the pool pad
+	open := func(ind int, first string) {
+		g.wideLoc = 0
+		if g.wide && r.Chance(1, 3) {
+			g.wideLoc = g.wideCount()
+			g.tag("wide-locals")
+		}
+		g.locals(ind)
+		g.w(ind, first)
+		if g.wide && (g.wideLoc == 0 || r.Chance(1, 3)) {
+			g.pad(ind, g.wideCount())
+		}
+	}
+	// final expression of a method body: a plain value or a call in tail position
+	last := func(ind int, plain string) {
+		val := func() string {
+			if c := g.call(); c != "" && r.Chance(1, 2) {
+				g.tag("tail-call")
+				return fmt.Sprintf(c, g.expr())
+			}
+			return g.expr()
+		}
+		switch r.Below(12) {
+		case 0, 1, 2:
+			if c := g.call(); c != "" {
+				g.tag("tail-call")
+				g.w(ind, fmt.Sprintf(c, plain))
+				return
+			}
+			g.w(ind, plain)
+		case 3:
+			// the body's value is a conditional whose branches end in values or returns
+			g.tag("final-if-return")
+			g.w(ind, "if "+g.cond())
+			if r.Chance(1, 2) {
+				g.w(ind+1, "return "+val())
+			} else {
+				g.w(ind+1, val())
+			}
+			g.w(ind, "else")
+			if r.Chance(1, 2) {
+				g.w(ind+1, "return "+val())
+			} else {
+				g.w(ind+1, val())
+			}
+			g.w(ind, "end")
+		case 4:
+			g.tag("final-switch-return")
+			g.w(ind, "switch "+g.v())
+			g.w(ind, "case 1 then return "+val())
+			g.w(ind, "case 2...5")
+			g.w(ind+1, val())
+			g.w(ind, "else")
+			if r.Chance(1, 2) {
+				g.w(ind+1, "return "+val())
+			} else {
+				g.w(ind+1, val())
+			}
+			g.w(ind, "end")
+		case 5:
+			g.tag("final-do-catch")
+			g.w(ind, "do")
+			g.w(ind+1, fmt.Sprintf("throw \"e\" if %s", g.cond()))
+			if r.Chance(1, 2) {
+				g.w(ind+1, "return "+val())
+			} else {
+				g.w(ind+1, val())
+			}
+			g.w(ind, "catch String() as "+g.fresh("e"))
+			if r.Chance(1, 2) {
+				g.w(ind+1, "return "+val())
+			} else {
+				g.w(ind+1, val())
+			}
+			if r.Chance(1, 3) {
+				g.w(ind, "finally")
+				g.w(ind+1, "b += 1")
+			}
+			g.w(ind, "end")
+		case 6:
+			g.tag("final-return")
+			g.w(ind, "return "+val())
+		case 7:
+			g.tag("final-modifier-if")
+			g.w(ind, fmt.Sprintf("%s if %s else %s", val(), g.cond(), val()))
+		case 8:
+			g.tag("final-unless-return")
+			g.w(ind, "unless "+g.cond())
+			g.w(ind+1, "return "+val())
+			g.w(ind, "end")
+			g.w(ind, plain)
+		default:
+			g.w(ind, plain)
+		}
+	}
+	for _, it := range items {
+		g.closSeen = false
+		switch it.kind {
+		case 0:
+			g.tag("method")
+			m := it.name
+			g.selfCall = m + "(%s)"
 			g.w(0, fmt.Sprintf("def %s(p: Int, o: Int = %d): Int", m, g.k()))
-			g.locals(1)
-			g.w(1, "a = p + o")
+			open(1, "a = p + o")
 			g.inFunc = true
 			g.block(1, depth)
 			g.inFunc = false
-			g.w(1, "a + b + c")
+			last(1, "a + b + c")
 			g.w(0, "end")
 			calls = append(calls, fmt.Sprintf("a = %s(%d)", m, g.k()))
 		case 2:
 			g.tag("generator")
-			m := g.fresh("g")
+			m := it.name
+			g.selfCall = ""
 			g.w(0, fmt.Sprintf("def *%s(p: Int): Int", m))
-			g.locals(1)
-			g.w(1, "a = p")
+			open(1, "a = p")
 			g.w(1, "yield a + b")
 			g.inGen = true
 			g.block(1, depth)
@@ -365,40 +654,44 @@ func Program(r *hx.Rng) (string, string) {
 			calls = append(calls, fmt.Sprintf("for %s in %s(%d) then b += %s", iv, m, g.k(), iv))
 		case 3:
 			g.tag("async")
-			m := g.fresh("am")
+			m := it.name
+			g.selfCall = ""
 			g.w(0, fmt.Sprintf("async def %s(p: Int): Int", m))
-			g.locals(1)
-			g.w(1, "a = p")
+			open(1, "a = p")
 			g.inFunc = true
 			g.block(1, depth)
 			g.inFunc = false
 			if len(calls) > 0 && r.Chance(1, 2) {
 				g.w(1, "b")
 			} else {
-				g.w(1, "a + 1")
+				last(1, "a + 1")
 			}
 			g.w(0, "end")
 			calls = append(calls, fmt.Sprintf("c = await %s(%d)", m, g.k()))
 		case 4:
 			g.tag("class")
-			cn := g.fresh("Kls")
+			cn := it.name
+			g.selfCall = "run(%s)"
 			g.w(0, "class "+cn)
 			g.w(1, "attr x: Int, y: Int")
 			g.w(1, "init(@x: Int, @y: Int); end")
 			g.w(1, "def run(p: Int): Int")
-			g.locals(2)
-			g.w(2, "a = p + @x")
+			open(2, "a = p + @x")
 			g.inFunc = true
 			g.block(2, depth)
 			g.inFunc = false
 			g.w(2, "@y = a")
-			g.w(2, "a + @y")
+			last(2, "a + @y")
 			g.w(1, "end")
 			g.w(0, "end")
 			calls = append(calls, fmt.Sprintf("b = %s(%d, 2).run(%d)", cn, g.k(), g.k()))
 		case 5:
 			g.tag("macro")
-			m := g.fresh("mc")
+			m := it.name
+			g.selfCall = ""
+			saveW := g.wide
+			g.wide = false
+			g.wideLoc = 0
 			g.w(0, "using Std::Elk::AST::*")
 			g.w(0, fmt.Sprintf("macro %s(i: IntLiteralNode)", m))
 			g.locals(1)
@@ -408,24 +701,26 @@ func Program(r *hx.Rng) (string, string) {
 			g.noLoop = false
 			g.w(1, "(a + b).to_ast_node")
 			g.w(0, "end")
+			g.wide = saveW
 			calls = append(calls, fmt.Sprintf("c = %s!(%d)", m, g.k()))
 		default:
 			g.tag("module")
-			mn := g.fresh("Mod")
+			mn := it.name
+			g.selfCall = "calc(%s)"
 			g.w(0, "module "+mn)
 			g.w(1, "def calc(p: Int): Int")
-			g.locals(2)
-			g.w(2, "a = p")
+			open(2, "a = p")
 			g.inFunc = true
 			g.block(2, depth)
 			g.inFunc = false
-			g.w(2, "a")
+			last(2, "a")
 			g.w(1, "end")
 			g.w(0, "end")
 			calls = append(calls, fmt.Sprintf("a = %s.calc(%d)", mn, g.k()))
 		}
 	}
-	g.locals(0)
+	g.selfCall = ""
+	open(0, "a = a + 0")
 	for _, c := range calls {
 		g.w(0, c)
 	}
